@@ -1,0 +1,7 @@
+//go:build verif
+// +build verif
+
+package plumbing
+
+// VerifStripWhitespace exports stripWhitespace in whitespace-ignore mode.
+func VerifStripWhitespace(s string) string { return stripWhitespace(s, true) }
